@@ -358,6 +358,8 @@ def _empty(shape) -> NA:
 
 # ---------------------------------------------------------------------------------------- numpy functions
 def np_array(x, *a, **k):
+    if type(x).__name__ == "Ser" and isinstance(getattr(x, "values", None), list):
+        x = list(x.values)  # a modelled pandas series: its values, positionally
     return x.copy() if isinstance(x, NA) else NA(x)
 
 
